@@ -82,6 +82,9 @@ Proof. intros ->. rewrite firstn_app, firstn_all, Nat.sub_diag. cbn. apply app_n
 Lemma slice_mid (x y z : bytes) a n : a = length x -> n = length y -> slice (x ++ y ++ z) a n = y.
 Proof. intros Ha Hn. unfold slice. rewrite (skipn_app_exact x _ a Ha). apply firstn_app_exact; exact Hn. Qed.
 
+Lemma slice_length l a n : (a + n <= length l)%nat -> length (slice l a n) = n.
+Proof. intros H. unfold slice. rewrite firstn_length, skipn_length. lia. Qed.
+
 Lemma skipn_skipn {A} (l : list A) a b : skipn a (skipn b l) = skipn (b + a) l.
 Proof.
   revert l. induction b as [|b IH]; intros l; cbn [skipn plus]; [reflexivity|].
@@ -343,18 +346,18 @@ Proof.
   unfold std_ext_header_size, DLT_MIN_STD_HEADER_SIZE, DLT_EXT_HEADER_SIZE in *.
   destruct (has_ecu_id h), (has_session_id h), (has_timestamp h), (has_ext_hdr h); cbn [andb bind];
     repeat match goal with
-           | |- context [if ?a <=? ?b then _ else _] =>
+           | |- context [?a <=? ?b] =>
                let H := fresh "Hc" in destruct (N.leb_spec a b) as [H|H]; [|exfalso; lia]; cbn [andb bind]
-           | |- context [if ?a <? ?b then _ else _] =>
+           | |- context [?a <? ?b] =>
                let H := fresh "Hc" in destruct (N.ltb_spec a b) as [H|H]; [|exfalso; lia]; cbn [andb bind]
            end; reflexivity.
 Qed.
 
 Lemma parse_after_marker_chk_ok hsz pat short sh index data :
-  hsz + 4 <= blen data ->
+  1 <= hsz -> hsz + 4 <= blen data ->
   parse_after_marker_chk hsz pat short sh index data = Ok (parse_after_marker hsz pat short sh index data).
 Proof.
-  intros Hn. unfold parse_after_marker_chk, parse_after_marker.
+  intros Hh1 Hn. unfold parse_after_marker_chk, parse_after_marker.
   unfold sub_chk at 1. destruct (N.leb_spec hsz (blen data)) as [_|Hc]; [|lia]. cbn [bind].
   unfold slice_from_chk at 1. destruct (N.leb_spec hsz (blen data)) as [_|Hc]; [|lia]. cbn [bind].
   unfold std_from_buf_chk.
@@ -405,7 +408,7 @@ Proof.
   destruct (N.ltb_spec (blen data) 20) as [H|H].
   - unfold sub_chk. destruct (N.leb_spec (blen data) 20); [reflexivity|lia].
   - destruct (storage_from_buf data); [|reflexivity].
-    apply parse_after_marker_chk_ok. unfold DLT_STORAGE_HEADER_SIZE. lia.
+    apply parse_after_marker_chk_ok; unfold DLT_STORAGE_HEADER_SIZE; lia.
 Qed.
 
 Theorem parse_serial_chk_ok index data : parse_serial_chk index data = Ok (parse_serial index data).
@@ -414,5 +417,5 @@ Proof.
   destruct (N.ltb_spec (blen data) (4 + 4)) as [H|H].
   - unfold sub_chk. destruct (N.leb_spec (blen data) 20); [reflexivity|lia].
   - destruct (negb (is_serial_pat data)); [reflexivity|].
-    apply parse_after_marker_chk_ok. lia.
+    apply parse_after_marker_chk_ok; lia.
 Qed.
